@@ -23,4 +23,23 @@ pub mod strs {
         requires all_ascii(s.chars()), b <= s.chars().len()
         ensures r@ == s.chars().subrange(0, b as int)
     { unimplemented!() }
+
+    /// R10: `s.split(c)` with a char pattern (std: n occurrences give n+1 pieces)
+    pub trait SplitShim {
+        fn split_<'a>(&'a self, c: char) -> crate::shims::iter::Iter<&'a str>;
+    }
+    impl SplitShim for String {
+        #[verifier::external_body]
+        fn split_<'a>(&'a self, c: char) -> (r: crate::shims::iter::Iter<&'a str>)
+            ensures !r@.endless, r@.items.len() == crate::spec::split_at(self@, c).len(),
+                forall|i: int| 0 <= i < r@.items.len() ==> (#[trigger] r@.items[i])@ == crate::spec::split_at(self@, c)[i],
+        { unimplemented!() }
+    }
+    impl SplitShim for str {
+        #[verifier::external_body]
+        fn split_<'a>(&'a self, c: char) -> (r: crate::shims::iter::Iter<&'a str>)
+            ensures !r@.endless, r@.items.len() == crate::spec::split_at(self@, c).len(),
+                forall|i: int| 0 <= i < r@.items.len() ==> (#[trigger] r@.items[i])@ == crate::spec::split_at(self@, c)[i],
+        { unimplemented!() }
+    }
 }
